@@ -66,6 +66,11 @@ def registered_options(prog: Program) -> Tuple[Set[str], Set[str]]:
     except (ImportError, ValueError):
         spec = None
     lib_dir = os.path.dirname(spec.origin) if spec and spec.origin else None
+    if lib_dir is None:  # analysed under an interpreter other than the repository's own
+        import glob
+
+        found = sorted(glob.glob("/venv/lib/python*/site-packages/application_properties"))
+        lib_dir = found[0] if found else None
     if lib_dir:
         path = os.path.join(lib_dir, "application_properties_utilities.py")
         if os.path.exists(path):
